@@ -70,12 +70,15 @@ def build_input(case):
     return H
 
 
-def build_fully(case):
+def build_fully(case, bare_ok=False):
     f = case["fully"]
     if f is None:
         return ()
     if isinstance(f, list):
         return tuple(f)
+    if bare_ok and set(f) == {"0"} and max(case["sub"]) == 0 and (len(case["sub"]) + case["nparam"]) % 2 == 0:
+        # single block: the mask may be given bare (the library wraps it as {0: mask}); half of such cases
+        return np.array(f["0"], dtype=bool)
     return {int(k): np.array(m, dtype=bool) for k, m in f.items()}
 
 
@@ -97,7 +100,7 @@ def run(case, names=("H_tilde", "U", "U†"), extra_kwargs=None, want_internal=F
     from pymablock import block_diagonalize
     nb, sizes, perm, offs = layout(case)
     H = build_input(case)
-    kw = dict(subspace_indices=case["sub"], fully_diagonalize=build_fully(case), hermitian=case["hermitian"])
+    kw = dict(subspace_indices=case["sub"], fully_diagonalize=build_fully(case, bare_ok=True), hermitian=case["hermitian"])
     if case.get("atol") is not None:
         kw["atol"] = case["atol"]
     kw.update(extra_kwargs or {})
